@@ -769,6 +769,76 @@ theorem cmsa_sigma_pos (F : Fns Rat) (cC : Rat) (n mu : Nat) (hmu : 1 ≤ mu) (s
     positivity
   exact foldl_pos sel _ _ hm (le_refl _) hpos (Or.inl hne)
 
+/-- relabel the fitness of a CMSA offspring -/
+def relabelCmsa (φ : Rat → Rat) (i : CmsaInd Rat) : CmsaInd Rat := { i with fitness := φ i.fitness }
+
+/-- selection in `CMSA::updatePopulation` on relabelled fitness values picks the same offspring in the same order -/
+theorem cmsaSelect_relabel (φ : Rat → Rat) (hφ : OrderPreserving φ) (off : List (CmsaInd Rat)) (mu : Nat) :
+    cmsaSelect (off.map (relabelCmsa φ)) mu = (cmsaSelect off mu).map (relabelCmsa φ) := by
+  unfold cmsaSelect
+  rw [List.map_take]
+  congr 1
+  symm
+  apply List.map_mergeSort
+  intro a _ b _
+  exact hφ a.fitness b.fitness
+
+/-- the CMSA update reads points, steps and step sizes of the selected offspring, never their fitness -/
+theorem cmsaUpdate_relabel (F : Fns Rat) (cC : Rat) (n mu : Nat) (s : Cmsa Rat) (sel : List (CmsaInd Rat)) (φ : Rat → Rat) :
+    cmsaUpdate F cC n mu s (sel.map (relabelCmsa φ)) = cmsaUpdate F cC n mu s sel := by
+  unfold cmsaUpdate
+  simp only [List.foldl_map]
+  rfl
+
+/-- **cmsa_step_rank_invariant**: one generation of CMSA on `φ ∘ f` with the same offspring (same generator stream) yields
+the same step size, mean and covariance factor, and reports the same point, for every order-preserving `φ` -/
+theorem cmsa_step_rank_invariant (F : Fns Rat) (cC : Rat) (n mu : Nat) (s : Cmsa Rat) (off : List (CmsaInd Rat))
+    (φ : Rat → Rat) (hφ : OrderPreserving φ) :
+    cmsaUpdate F cC n mu s (cmsaSelect (off.map (relabelCmsa φ)) mu) = cmsaUpdate F cC n mu s (cmsaSelect off mu) ∧
+      ((cmsaSelect (off.map (relabelCmsa φ)) mu).head?.map (·.point)) = ((cmsaSelect off mu).head?.map (·.point)) := by
+  rw [cmsaSelect_relabel φ hφ]
+  refine ⟨cmsaUpdate_relabel F cC n mu s _ φ, ?_⟩
+  rw [List.head?_map, Option.map_map]
+  rfl
+
+/-! ## VD-CMA (`Model/ES.lean` `vdUpdate`, tied to `VDCMA::updateStrategyParameters` by one-step refinement) -/
+
+/-- the step size of VD-CMA stays positive: `σ' = σ · exp(…)` -/
+theorem vd_sigma_pos (F : Fns Rat) (hexp : ∀ x, 0 < F.exp x) (c : VdConsts Rat) (n : Nat) (d : Vd Rat) (sel : List (VdInd Rat))
+    (hs : 0 < d.sigma) : 0 < (vdUpdate F c n d sel).sigma := by
+  unfold vdUpdate
+  exact mul_pos hs (hexp _)
+
+def relabelVd (φ : Rat → Rat) (i : VdInd Rat) : VdInd Rat := { i with fitness := φ i.fitness }
+
+theorem vdSelect_relabel (φ : Rat → Rat) (hφ : OrderPreserving φ) (off : List (VdInd Rat)) (mu : Nat) :
+    vdSelect (off.map (relabelVd φ)) mu = (vdSelect off mu).map (relabelVd φ) := by
+  unfold vdSelect
+  rw [List.map_take]
+  congr 1
+  symm
+  apply List.map_mergeSort
+  intro a _ b _
+  exact hφ a.fitness b.fitness
+
+/-- the update reads points and stored steps of the selected offspring, never their fitness -/
+theorem vdUpdate_relabel (F : Fns Rat) (c : VdConsts Rat) (n : Nat) (d : Vd Rat) (sel : List (VdInd Rat)) (φ : Rat → Rat) :
+    vdUpdate F c n d (sel.map (relabelVd φ)) = vdUpdate F c n d sel := by
+  unfold vdUpdate
+  simp only [List.map_map, List.zip_map_right, List.foldl_map]
+  rfl
+
+/-- **vd_step_rank_invariant**: one generation of VD-CMA on `φ ∘ f` with the same samples gives the same search
+distribution and reports the same point -/
+theorem vd_step_rank_invariant (F : Fns Rat) (c : VdConsts Rat) (n mu : Nat) (d : Vd Rat) (off : List (VdInd Rat))
+    (φ : Rat → Rat) (hφ : OrderPreserving φ) :
+    vdUpdate F c n d (vdSelect (off.map (relabelVd φ)) mu) = vdUpdate F c n d (vdSelect off mu) ∧
+      ((vdSelect (off.map (relabelVd φ)) mu).head?.map (·.point)) = ((vdSelect off mu).head?.map (·.point)) := by
+  rw [vdSelect_relabel φ hφ]
+  refine ⟨vdUpdate_relabel F c n d _ φ, ?_⟩
+  rw [List.head?_map, Option.map_map]
+  rfl
+
 /-! ## simplex downhill -/
 theorem track_le (b x : Sol Rat) : (track b x).value ≤ b.value := by
   unfold track; split
@@ -834,6 +904,51 @@ theorem simplex_value_is_f (f : Vec Rat → Rat) (s : Simplex Rat) (h : Honest f
           exact he _
   · exact h
 
+
+/-- **simplexInit_honest**: after `init` (as repaired, F16) the reported value is the objective at the reported point, for
+EVERY objective -- no bound on its values -/
+theorem simplexInit_honest (f : Vec Rat → Rat) (x0 : Vec Rat) : Honest f (simplexInit f x0).best := by
+  have he : ∀ p, Honest f (evalAt f p) := fun p => rfl
+  have hv : ∀ v ∈ simplexVerts f x0, Honest f v := by
+    intro v hv
+    unfold simplexVerts at hv
+    obtain ⟨j, _, rfl⟩ := List.mem_map.mp hv
+    exact he _
+  unfold simplexInit
+  simp only
+  split
+  · exact he _
+  · next v vs heq =>
+    rw [heq] at hv
+    exact foldl_track_honest f vs v (hv v (by simp)) (fun x hx => hv x (by simp [hx]))
+
+/-- **simplex_value_is_f_run**: value consistency of the whole run, from `init`, without any hypothesis -/
+theorem simplex_value_is_f_run (f : Vec Rat → Rat) (x0 : Vec Rat) (t : Nat) : Honest f (simplexRun f x0 t).best := by
+  induction t with
+  | zero => exact simplexInit_honest f x0
+  | succ t ih => exact simplex_value_is_f f _ ih
+
+/-- the pinned C++ (`m_best.value = 1e100` before the loop) agrees with the repaired `init` when the first vertex value is
+below the magic number ... -/
+theorem simplexInitMagic_eq_of_small (f : Vec Rat → Rat) (x0 p0 : Vec Rat) (v : Sol Rat) (vs : List (Sol Rat))
+    (hverts : simplexVerts f x0 = v :: vs) (hsmall : v.value < 10 ^ 100) :
+    (simplexInitMagic f x0 p0).best = (simplexInit f x0).best := by
+  unfold simplexInitMagic simplexInit
+  simp only [hverts, List.foldl_cons]
+  have : track (⟨p0, Scalar.ofRat (10 ^ 100)⟩ : Sol Rat) v = v := by
+    unfold track
+    simp only [ofRat_rat]
+    rw [if_pos hsmall]
+  rw [this]
+
+/-- ... and is NOT honest for an objective whose values are all at least `1e100` (witness: the constant `10^100 + 1` in
+dimension one, fresh object = empty previous point): the reported value is the magic number, not the objective at the
+reported point (F16) -/
+theorem simplexInitMagic_not_honest_witness :
+    ¬ Honest (fun _ => (10 : Rat) ^ 100 + 1) (simplexInitMagic (fun _ => (10 : Rat) ^ 100 + 1) [0] []).best := by
+  unfold Honest simplexInitMagic simplexVerts evalAt track
+  simp [List.range, List.range.loop, List.zipIdx]
+  norm_num [Scalar.ofRat]
 
 /-! ## Cholesky factor of CMSA and ElitistCMA: the covariance stays symmetric positive definite -/
 
@@ -1058,6 +1173,192 @@ theorem ecma_factor_valid (F : Fns Rat) (hsqrt : ∀ x : Rat, 0 < x → 0 < F.sq
 /-- non-vacuity: the identity factor is valid, and a rank-one update of it with the identity `sqrt` completes -/
 example : ValidFactor 1 [[1]] := ⟨rfl, by simp, by intro k hk; simp at hk; subst hk; simp [Vec.get]⟩
 example : cholUpdate idFns 1 1 [1] [[1]] = some [[2]] := by decide +kernel
+
+/-! ## configuration axes of the public interface: `ElitistCMA::activeUpdate()`, `CMA::setLowerBound`,
+`CrossEntropyMethod::setNoiseType` — the theorems hold for EVERY setting, not only for the defaults -/
+
+/-- `ElitistCMA::init` establishes the invariant of `ecma_elitist_monotone` when the starting point is feasible -/
+theorem ecmaInit_invariant (sigma pSucc : Rat) (n : Nat) (L : List (Vec Rat)) (x0 : Vec Rat) (f : Rat) :
+    (ecmaInit sigma pSucc n L x0 f f).anc.getLast? = some (ecmaInit sigma pSucc n L x0 f f).bestValue := by
+  simp [ecmaInit, List.replicate]
+
+/-- **ecma_elitist_monotone_run**: for BOTH settings of `activeUpdate()` (`k.active` is universally quantified), every
+number of steps and every sequence of samples and (unpenalized = penalized) fitness values: the value reported after the
+run is not worse than the one reported before, and the parent's accepted fitness is still the reported value. -/
+theorem ecma_elitist_monotone_run (F : Fns Rat) (k : EcmaConsts Rat) (inputs : List (EcmaInput Rat)) (s s' : Ecma Rat)
+    (hfeas : ∀ i ∈ inputs, i.fu = i.fp) (hinv : s.anc.getLast? = some s.bestValue) (h : ecmaRun F k s inputs = some s') :
+    s'.bestValue ≤ s.bestValue ∧ s'.anc.getLast? = some s'.bestValue := by
+  induction inputs generalizing s with
+  | nil =>
+    simp only [ecmaRun, Option.some.injEq] at h
+    subst h; exact ⟨le_refl _, hinv⟩
+  | cons i rest ih =>
+    simp only [ecmaRun, Option.bind_eq_some_iff] at h
+    obtain ⟨u, hu, hrest⟩ := h
+    have hf : i.fu = i.fp := hfeas i (by simp)
+    rw [hf] at hu
+    obtain ⟨h1, h2, _⟩ := ecma_elitist_monotone F k s u i.y i.zz i.fp hinv hu
+    obtain ⟨h3, h4⟩ := ih u (fun j hj => hfeas j (by simp [hj])) h2 hrest
+    exact ⟨le_trans h3 h1, h4⟩
+
+/-- every prefix of a run reports a value at least as good as every shorter prefix (monotone after EVERY step) -/
+theorem ecma_elitist_monotone_prefix (F : Fns Rat) (k : EcmaConsts Rat) (l1 l2 : List (EcmaInput Rat)) (s s1 s2 : Ecma Rat)
+    (hfeas : ∀ i ∈ l1 ++ l2, i.fu = i.fp) (hinv : s.anc.getLast? = some s.bestValue)
+    (h1 : ecmaRun F k s l1 = some s1) (h2 : ecmaRun F k s1 l2 = some s2) : s2.bestValue ≤ s1.bestValue := by
+  have a := ecma_elitist_monotone_run F k l1 s s1 (fun i hi => hfeas i (by simp [hi])) hinv h1
+  exact (ecma_elitist_monotone_run F k l2 s1 s2 (fun i hi => hfeas i (by simp [hi])) a.2 h2).1
+
+/-- **ecma_accepted_monotone**: with penalties (infeasible offspring, `fp ≠ fu`) the REPORTED value is the unpenalized fitness
+and need not be monotone, but the accepted penalized fitness — the newest entry of the history, against which offspring are
+compared — never increases, for both settings of `activeUpdate()`. -/
+theorem ecma_accepted_monotone (F : Fns Rat) (k : EcmaConsts Rat) (s s' : Ecma Rat) (y : Vec Rat) (zz fp fu a : Rat)
+    (ha : s.anc.getLast? = some a) (h : ecmaStep F k s y zz fp fu = some s') :
+    ∃ a', s'.anc.getLast? = some a' ∧ a' ≤ a := by
+  unfold ecmaStep at h
+  simp only at h
+  split at h
+  · next hc =>
+    simp only [Option.map_eq_some_iff] at h
+    obtain ⟨u, hu, rfl⟩ := h
+    refine ⟨fp, by simp, ?_⟩
+    unfold classify at hc
+    rw [ha] at hc
+    simp only at hc
+    by_contra hge
+    have hge' : a ≤ fp := le_of_lt (not_le.mp hge)
+    simp only [hge', if_true] at hc
+    split at hc
+    · split at hc <;> cases hc
+    · cases hc
+  · next succ hne =>
+    simp only [Option.map_eq_some_iff] at h
+    obtain ⟨u, hu, rfl⟩ := h
+    obtain ⟨_, _, hanc, _, _⟩ := updateAsParent_sigma F k s u _ zz y hne hu
+    exact ⟨a, by show u.anc.getLast? = some a; rw [hanc]; exact ha, le_refl _⟩
+
+/-! ### rank invariance of ElitistCMA (both settings of `activeUpdate()`) -/
+
+/-- the state of a run on `φ ∘ f`: the history of accepted fitness values and the reported value are relabelled,
+everything else (step size, success probability, path, Cholesky factor, points) is the same -/
+def ecmaRelabel (φ : Rat → Rat) (s : Ecma Rat) : Ecma Rat := { s with anc := s.anc.map φ, bestValue := φ s.bestValue }
+
+theorem lt_iff_of_orderPreserving (φ : Rat → Rat) (hφ : OrderPreserving φ) (a b : Rat) : a < b ↔ φ a < φ b := by
+  have h := hφ b a
+  rw [← not_le, ← not_le]
+  constructor
+  · intro h1 h2; exact h1 (of_decide_eq_true (h ▸ decide_eq_true h2))
+  · intro h1 h2; exact h1 (of_decide_eq_true (h ▸ decide_eq_true h2))
+
+theorem le_iff_of_orderPreserving (φ : Rat → Rat) (hφ : OrderPreserving φ) (a b : Rat) : a ≤ b ↔ φ a ≤ φ b := by
+  have h := hφ a b
+  constructor
+  · intro h1; exact of_decide_eq_true (h ▸ decide_eq_true h1)
+  · intro h1; exact of_decide_eq_true (h.symm ▸ decide_eq_true h1)
+
+/-- the three-way success rule only compares the offspring's fitness with entries of the history -/
+theorem classify_relabel (φ : Rat → Rat) (hφ : OrderPreserving φ) (active : Bool) (anc : List Rat) (fp : Rat) :
+    classify active (anc.map φ) (φ fp) = classify active anc fp := by
+  unfold classify
+  rw [List.getLast?_map, List.head?_map]
+  cases h1 : anc.getLast? <;> cases h2 : anc.head? <;>
+    simp only [Option.map_none, Option.map_some, ← le_iff_of_orderPreserving φ hφ, ← lt_iff_of_orderPreserving φ hφ]
+
+theorem updateAsOffspring_relabel (F : Fns Rat) (k : EcmaConsts Rat) (φ : Rat → Rat) (s : Ecma Rat) (y : Vec Rat) :
+    updateAsOffspring F k (ecmaRelabel φ s) y = (updateAsOffspring F k s y).map (ecmaRelabel φ) := by
+  unfold updateAsOffspring
+  simp only [ecmaRelabel, Option.map_map]
+  rfl
+
+theorem updateAsParent_relabel (F : Fns Rat) (k : EcmaConsts Rat) (φ : Rat → Rat) (s : Ecma Rat) (succ : Success) (zz : Rat) (y : Vec Rat) :
+    updateAsParent F k (ecmaRelabel φ s) succ zz y = (updateAsParent F k s succ zz y).map (ecmaRelabel φ) := by
+  unfold updateAsParent
+  simp only [ecmaRelabel]
+  repeat' split
+  all_goals first | rfl | (simp only [Option.map_map]; rfl)
+
+/-- **ecma_step_rank_invariant**: one `ElitistCMA::step` on `φ ∘ f` (offspring fitness `φ fp`, `φ fu`) from the relabelled
+state is the relabelled step on `f`, for every order-preserving `φ` and both settings of `activeUpdate()` -/
+theorem ecma_step_rank_invariant (F : Fns Rat) (k : EcmaConsts Rat) (φ : Rat → Rat) (hφ : OrderPreserving φ)
+    (s : Ecma Rat) (y : Vec Rat) (zz fp fu : Rat) :
+    ecmaStep F k (ecmaRelabel φ s) y zz (φ fp) (φ fu) = (ecmaStep F k s y zz fp fu).map (ecmaRelabel φ) := by
+  unfold ecmaStep
+  have hc : classify k.active (ecmaRelabel φ s).anc (φ fp) = classify k.active s.anc fp := classify_relabel φ hφ k.active s.anc fp
+  simp only [hc]
+  cases hcl : classify k.active s.anc fp
+  · simp only [updateAsOffspring_relabel, Option.map_map]
+    congr 1
+    funext u
+    simp [ecmaRelabel, List.map_drop]
+  · simp only [updateAsParent_relabel, Option.map_map]
+    congr 1
+  · simp only [updateAsParent_relabel, Option.map_map]
+    congr 1
+
+/-- **ecma_rank_invariance**: whole runs.  On `φ ∘ f` with the same samples ElitistCMA visits the same points with the same
+step sizes and covariance factors; the reported value and the history are the `φ`-images. -/
+theorem ecma_rank_invariance (F : Fns Rat) (k : EcmaConsts Rat) (φ : Rat → Rat) (hφ : OrderPreserving φ)
+    (inputs : List (EcmaInput Rat)) (s : Ecma Rat) :
+    ecmaRun F k (ecmaRelabel φ s) (inputs.map fun i => { i with fp := φ i.fp, fu := φ i.fu }) =
+      (ecmaRun F k s inputs).map (ecmaRelabel φ) := by
+  induction inputs generalizing s with
+  | nil => simp [ecmaRun]
+  | cons i rest ih =>
+    simp only [List.map_cons, ecmaRun, ecma_step_rank_invariant F k φ hφ]
+    cases h : ecmaStep F k s i.y i.zz i.fp i.fu with
+    | none => simp
+    | some u => simp [ih u]
+
+/-- the relabelled initial state is the initial state of the run on `φ ∘ f` -/
+theorem ecmaInit_relabel (φ : Rat → Rat) (sigma pSucc : Rat) (n : Nat) (L : List (Vec Rat)) (x0 : Vec Rat) (fp fu : Rat) :
+    ecmaRelabel φ (ecmaInit sigma pSucc n L x0 fp fu) = ecmaInit sigma pSucc n L x0 (φ fp) (φ fu) := by
+  simp [ecmaRelabel, ecmaInit]
+
+example : OrderPreserving (fun x : Rat => 2 * x) := by
+  intro a b; simp
+
+/-- non-vacuity with the active update switched OFF: a successful step from the initial state -/
+def k0 : EcmaConsts Rat := { pTarget := 2/11, dStep := 3/2, cP := 1/12, cPath := 2/3, cCov := 2/7, cUnlearn := 1/5, threshold := 11/25, active := false }
+example : (ecmaRun idFns k0 (ecmaInit 1 (2/11) 1 [[1]] [2] 4 4) [⟨[-1], 1, 1, 1⟩, ⟨[1], 1, 3, 3⟩]).isSome = true := by decide +kernel
+
+/-- the stability clamp of `CMA::updatePopulation` keeps the step size positive for EVERY bound the user may set with
+`CMA::setLowerBound` (zero and negative bounds included: the clamp then never fires) -/
+theorem clamp_pos_any (F : Fns Rat) (lb sigma ev : Rat) (hs : 0 < sigma)
+    (hr : 0 < F.sqrt (Scalar.abs ev)) : 0 < clampSigma F lb sigma ev := by
+  unfold clampSigma
+  simp only
+  split
+  · next hlt => exact div_pos (lt_trans (mul_pos hs hr) hlt) hr
+  · exact hs
+
+/-- **sigma_pos_any_bound**: `sigma_pos` without the hypothesis `0 < lowerBound` -/
+theorem sigma_pos_any_bound (F : Fns Rat) (W : World Rat) (c : Coeffs Rat) (n mu : Nat) (fit : Vec Rat → Rat)
+    (hexp : ∀ x, 0 < F.exp x) (hr : ∀ C, 0 < F.sqrt (Scalar.abs (W.lastEig C)))
+    (s : State Rat) (hs : 0 < s.dist.sigma) (t : Nat) : 0 < (run F W c n mu fit s t).dist.sigma := by
+  induction t with
+  | zero => exact hs
+  | succ t ih =>
+    have key : ∀ s : State Rat, 0 < s.dist.sigma → 0 < (step F W c n mu fit s).dist.sigma := by
+      intro s hs
+      unfold step finish
+      simp only
+      have hpos : ∀ sel, 0 < clampSigma F W.lowerBound (update F c n s.dist sel (W.eigVec s.dist.C)).sigma
+          (W.lastEig (update F c n s.dist sel (W.eigVec s.dist.C)).C) := by
+        intro sel
+        apply clamp_pos_any F _ _ _ _ (hr _)
+        unfold update
+        exact sigma_update_pos F hexp c n _ _ hs
+      split <;> exact hpos _
+    exact key _ ih
+
+/-- the noise term of the cross-entropy method is non-negative for every noise type and every generation -/
+theorem cemNoise_nonneg (nz : CemNoise Rat) (t : Nat) : 0 ≤ cemNoise nz t := by
+  unfold cemNoise
+  cases nz <;> simp only [smax_rat, szero_rat] <;> exact le_max_right _ _
+
+/-- **cem_variance_nonneg_any_noise**: the variance stays non-negative under every `setNoiseType` configuration -/
+theorem cem_variance_nonneg_any_noise (nz : CemNoise Rat) (t n : Nat) (sel : List (List Rat)) :
+    ∀ v ∈ (cemUpdate (cemNoise nz t) n sel).2, 0 ≤ v :=
+  cem_variance_nonneg _ (cemNoise_nonneg nz t) n sel
 
 /-! ## non-vacuity of the hypotheses used above -/
 /-- libm stand-ins satisfying every hypothesis at once: `log`, `sqrt` the identity, `exp`, `pow` the constant 1 -/
